@@ -339,7 +339,11 @@ class C09(Prop):
                 exp = open_ + esc(content) + '</code></pre>'
             elif kind == 'inline':
                 toks = [rng.choice(PLAIN + ['<b>', '</b>', '&amp;', '&', '<', '>', '*x*', '_y_', '~~z~~', 'http://u.v/', '[a](b)',
-                                            '<http://a.b/|c>', '<image:x>', '\\', '**', '"', "'", '$1', '}', '<<#a>>', 'a@b.c', '<a@b.c>', ':'])
+                                            '<http://a.b/|c>', '<image:x>', '\\', '**', '"', "'", '$1', '}', '<<#a>>', 'a@b.c', '<a@b.c>', ':',
+                                            # every replacement form, with urls a filter might treat specially
+                                            '[go](javascript:alert(1))', '^[go](vbscript:x)', '<javascript:void(0)|go>', '<data:text/html,x>',
+                                            '![alt](data:image/png;base64,AAAA)', '<image:javascript:x|alt>', '<file:///etc/passwd>', '<mailto:a@b.c|m>',
+                                            '&#x3c;', '&lt;script&gt;', '<!-- c -->', '<br>', 'snake_case_word', '...', '--', '->', '(c)', '+-'])
                         for _ in range(rng.randint(1, 5))]
                 content = ' '.join(toks)
                 if content.endswith('\\') or '::' in content:
@@ -422,9 +426,15 @@ class Blocks:
             lines.append(w)
         return '\n'.join(lines)
 
-    def block(self, depth, used):
+    # the sub-forms of an HTML block: element, one-line and multi-line comment, declaration
+    HTML_FORMS = ['<div class="z">\n<p>raw</p>\n</div>', '<!-- comment -->', '<hr>', '<table>\n<tr><td>x</td></tr>\n</table>',
+                  '<!--\ncommented out\ntext\n-->', '<!-- opens\nand closes later -->', '<!DOCTYPE html>', '<!-- a --> <!-- b -->']
+
+    def block(self, depth, used, force=None):
         rng = self.rng
         k = rng.randrange(11 if depth > 0 else 8)
+        if force is not None:
+            k = force
         if k == 7:
             # a (flat) list: the tenth block kind; what follows it must not attach to it (two blank lines, see doc)
             self.kinds.add('list')
@@ -459,7 +469,7 @@ class Blocks:
                     'exact': '<pre><code>%s</code></pre>' % esc('\n'.join(body))}
         if k == 4:
             self.kinds.add('html')
-            h = rng.choice(['<div class="z">\n<p>raw</p>\n</div>', '<!-- comment -->', '<hr>', '<table>\n<tr><td>x</td></tr>\n</table>'])
+            h = rng.choice(self.HTML_FORMS)
             return {'kind': 'html', 'src': h, 'starts': None, 'exact': html_policy(self.mode, '<mark>replaced HTML</mark>', h)}
         if k == 5:
             self.kinds.add('comment')
@@ -502,6 +512,14 @@ class Blocks:
     def doc(self, depth, used=frozenset(), n=None):
         rng = self.rng
         blocks = [self.block(depth, used) for _ in range(n or rng.randint(1, 4))]
+        if n is None and rng.random() < 0.15:
+            # two blocks of one kind in different sub-forms with something after them: what one leaves on the shared
+            # definition of the kind must not reach the next (HTML blocks; fenced code with and without class names)
+            kind = rng.choice([4, 4, 2])
+            pair = [self.block(0, used, force=kind), self.block(0, used, force=kind)]
+            at = rng.randrange(len(blocks) + 1)
+            blocks[at:at] = pair if rng.random() < 0.6 else [pair[0], self.block(0, used, force=0), pair[1]]
+            blocks.append(self.block(0, used, force=rng.choice([0, 1])))
         src = ''
         for i, b in enumerate(blocks):
             src += b['src']
@@ -689,6 +707,33 @@ class C10(Prop):
                 html += b2h + '<%s><li>c</li></%s>' % (last_tag, last_tag)
                 g.kinds.add('second-attachment')
                 yield {'src': '\n'.join(lines), 'expected': html, 'safeMode': rng.choice([0, 0, 1, 5, 15]), 'kinds': sorted(g.kinds)}
+                continue
+            if rng.random() < 0.15:
+                # two or more blank lines end a list, also right after an attached block (whatever closes that block): the item
+                # that follows starts a new list, never a continuation or a child
+                mk = rng.choice(['-', '+', '*', '.', '..', '::'])
+                tag = LIST_TAGS[mk[0]]
+                mode = rng.choice([0, 0, 1, 5, 15])
+                form = rng.randrange(7)
+                if form < 4:
+                    al, ah, blank_terminated = g.attached()
+                elif form == 4:
+                    al, ah, blank_terminated = ['', '> quoted par', ''], '<blockquote><p> quoted par</p></blockquote>', True
+                elif form == 5:
+                    mode = 0
+                    al, ah, blank_terminated = ['<div>x</div>', ''], '<div>x</div>', True
+                else:
+                    al, ah, blank_terminated = [], '', False
+                first = 'T%s a' % mk if tag == 'dl' else '%s a' % mk
+                mk2 = rng.choice([mk, mk, '***' if mk != '***' else '-'])
+                tag2 = LIST_TAGS[mk2[0]]
+                second = 'U%s c' % mk2 if tag2 == 'dl' else '%s c' % mk2
+                blanks = [''] * rng.randint(2, 4)
+                lines = [first] + al + blanks + [second]
+                item = (lambda t, tm, body: '<dt>%s</dt><dd>%s</dd>' % (tm, body) if t == 'dl' else '<li>%s</li>' % body)
+                html = '<%s>%s</%s><%s>%s</%s>' % (tag, item(tag, 'T', 'a' + ah), tag, tag2, item(tag2, 'U', 'c'), tag2)
+                g.kinds.add('blank-lines-end-list')
+                yield {'src': '\n'.join(lines), 'expected': html, 'safeMode': mode, 'kinds': sorted(g.kinds)}
                 continue
             lines, html = g.lst(rng.randint(1, 4), frozenset())
             while lines and lines[-1] == '':
